@@ -11,6 +11,7 @@ import (
 	"sort"
 	"strings"
 	"sync"
+	"sync/atomic"
 	"syscall"
 	"time"
 	"unsafe"
@@ -29,6 +30,9 @@ type c12db struct {
 	h      *Hist
 	target *HSnap
 	delta  bool
+	// delta items inserted by the last successful tryLoadDir
+	lastDeltaRestored int
+	released          bool // delta mode: the harness no longer holds a reference of a target
 }
 
 func c12Build(c *rt.C, r *rand.Rand, mem string, delta bool, nKeys int) *c12db {
@@ -49,7 +53,18 @@ func c12Build(c *rt.C, r *rand.Rand, mem string, delta bool, nKeys int) *c12db {
 // store runs StoreToDisk on a fresh reference of the target snapshot; with
 // delta, a churn goroutine runs so that the GC workers write delta items.
 func (d *c12db) store(r *rand.Rand, dir string, conc int) error {
-	if !d.target.S.Open() { // StoreToDisk consumes one reference
+	if d.delta {
+		// A snapshot the harness kept open would pin every item it sees: the collector could
+		// never unlink one during the backup and no delta item would ever be written. So in
+		// delta mode every backup stores a new snapshot whose only reference StoreToDisk
+		// consumes (taken here, while no writer call is in flight).
+		if !d.released {
+			d.target.S.Close()
+			d.released = true
+		}
+		d.target = d.h.Snapshot()
+		d.h.Snaps = nil
+	} else if !d.target.S.Open() { // StoreToDisk consumes one reference
 		return fmt.Errorf("harness: Open refused")
 	}
 	stop := make(chan struct{})
@@ -74,7 +89,18 @@ func (d *c12db) store(r *rand.Rand, dir string, conc int) error {
 	} else {
 		close(done)
 	}
-	err := d.db.N.StoreToDisk(dir, d.target.S, conc, nil)
+	// with delta the visitor is slowed down for its first items so that the churn really deletes
+	// and collects items before they are visited: those then exist in the delta shards only
+	var cb nitro.ItemCallback
+	if d.delta {
+		var n int32
+		cb = func(*nitro.ItemEntry) {
+			if k := atomic.AddInt32(&n, 1); k <= 300 && k%2 == 0 {
+				time.Sleep(150 * time.Microsecond)
+			}
+		}
+	}
+	err := d.db.N.StoreToDisk(dir, d.target.S, conc, cb)
 	close(stop)
 	<-done
 	return err
@@ -83,7 +109,9 @@ func (d *c12db) store(r *rand.Rand, dir string, conc int) error {
 // tryLoadDir loads dir into a fresh instance of d's configuration.
 func (d *c12db) tryLoadDir(dir string, conc int) (string, string) {
 	b := &backup{dir: dir, want: d.target.Want, db: d.db}
-	return b.tryLoad(conc)
+	oc, detail := b.tryLoad(conc)
+	d.lastDeltaRestored = b.lastDeltaRestored
+	return oc, detail
 }
 
 // ---------------------------------------------------------------------------
@@ -485,6 +513,8 @@ func c12Crash(c *rt.C) {
 		c.Violate("complete-backup-"+oc, "the completed backup does not load to the stored snapshot: "+detail, nil)
 		return
 	}
+	deltaOnly := d.lastDeltaRestored
+	c.Count("delta_only_items_in_crash_backups", int64(deltaOnly))
 	outcomes := map[string]int{}
 	for i := 0; i < ic.n; i++ {
 		img := filepath.Join(ic.dst, fmt.Sprintf("img%04d", i))
@@ -500,7 +530,7 @@ func c12Crash(c *rt.C) {
 		} else if strings.HasPrefix(lbl, "before write") {
 			cls = "before shard write"
 		}
-		c.Sig("image/%s/%s/delta=%v", cls, oc, delta)
+		c.Sig("image/%s/%s/delta=%v/delta-only-items=%v", cls, oc, delta, deltaOnly > 0)
 		if oc != "error" && oc != "exact" {
 			if oc == "inconclusive" {
 				c.Inconclusive(detail)
